@@ -706,6 +706,11 @@ int rtosc::canonicalize_arg_vals(rtosc_arg_val_t* av, size_t n,
                     av->val.i = val;
                 }
             }
+            else if(av->type == 'i' && *first == 'c')
+            {
+                // integer literal for a char port, e.g. rParam(x, rDefault(64))
+                av->type = 'c';
+            }
         }
     }
     if(is_array && arr_size)
